@@ -83,23 +83,6 @@ Theorem C13_composition_other_names :
 Proof. exact put_others_keys_incl. Qed.
 Print Assumptions C13_composition_other_names.
 
-(* sorted-input mode (-s), ALL inputs, sorted or not: the output decomposes, right record by right record, into the
-   left-unpaired records flushed at that point followed by records built from that right record only (its unpaired form
-   and/or its pairs), plus a final flush; and the left records behind the flushed ones (before renaming), together with
-   some rest D (the records of buckets that were paired), are a permutation of the left file: no left record is emitted
-   as unpaired twice, none is invented, none is lost without its bucket having been paired.
-   _partial: this is the left-record accounting only, but it needs no sortedness and no key-completeness; the equality
-   with the default mode on key-sorted inputs is C13_sorted_equals_unsorted_partial below. *)
-Theorem C13_sorted_mode_accounts_for_left_records_partial :
-  forall o left right, ul o = true ->
-  exists (steps : list (list record * list record)) (final D : list record),
-    join_sorted o left right
-    = flat_map (fun s => map (unpaired_left o) (fst s) ++ snd s) steps ++ map (unpaired_left o) final
-    /\ Forall2 (fun s r => from_right o r (snd s)) steps right
-    /\ Permutation (lefts o left) (List.concat (map fst steps) ++ final ++ D).
-Proof. exact join_sorted_conserves_left. Qed.
-Print Assumptions C13_sorted_mode_accounts_for_left_records_partial.
-
 (* sorted-input mode (-s), ALL inputs, sorted or NOT: every record is accounted for exactly once.
    The output is, right record by right record, [the left records flushed as unpaired at that point] followed by
    EITHER the right record's unpaired form (under --ur) OR its pairs with one whole non-empty bucket (unless --np)
